@@ -94,52 +94,106 @@ Listed(revs) ==
 SortedRevs(revs) == SetToSortSeq(SeqToSet(Listed(revs)), RevLess)
 
 ---------------------------------------------------------------------------------------
+(* Call results.  A call fails either because an error is injected at its position     *)
+(* (sn.faults: the adversary of C09) or naturally, because the API moved on while the  *)
+(* cache did not (sn.apods / sn.apvcs: what the API really holds).  Positions count    *)
+(* the calls of the plan (list calls are not counted; a failing list call is a fault   *)
+(* with list = 1..4).                                                                  *)
+
+NoFaults == <<>>
+FaultAt(sn, pos)  == {f \in SeqToSet(sn.faults) : f.k = pos}
+\* list calls happen in order 1,2 (adoptOrphanRevisions) and 3,4 (UpdateStatefulSet); the first faulty one ends the reconcile
+ListFault(sn, js) == \E f \in SeqToSet(sn.faults) : f.list \in js
+ListDied(sn, js)  == LET F == {f \in SeqToSet(sn.faults) : f.list \in js} IN
+                     F # {} /\ (CHOOSE f \in F : \A g \in F : f.list <= g.list).die
+FaultLabel(f) == IF f.die THEN (IF f.applied THEN "DiedApplied" ELSE "Died")
+                 ELSE IF f.applied THEN f.kind \o "Applied" ELSE f.kind
+\* the result of the call at absolute position pos whose natural result is nat
+ResultAt(sn, pos, nat) == IF FaultAt(sn, pos) # {} THEN FaultLabel(CHOOSE f \in FaultAt(sn, pos) : TRUE) ELSE nat
+At(sn, pos, c) == WithResult(c, ResultAt(sn, pos, c[6]))
+IsOK(c)       == c[6] = "ok"
+IsNotFound(c) == c[6] \in {"NotFound", "NotFoundApplied"}
+IsConflict(c) == c[6] \in {"Conflict", "ConflictApplied"}
+IsExists(c)   == c[6] \in {"AlreadyExists", "AlreadyExistsApplied"}
+IsDied(c)     == c[6] \in {"Died", "DiedApplied"}
+\* overlay the injected faults on calls that occupy positions base+1 .. base+Len(calls)
+Overlay(sn, calls, base) == [k \in 1..Len(calls) |-> At(sn, base + k, calls[k])]
+FirstBad(calls) == LET B == {k \in 1..Len(calls) : ~IsOK(calls[k])} IN IF B = {} THEN 0 ELSE MinOf(B)
+
+\* what the API holds when the caches are up to date
+ApiFromCache(pods) == [k \in 1..Len(pods) |->
+   [name |-> pods[k].name, imm |-> pods[k].phase \in {"Failed", "Succeeded"} \/ (pods[k].phase = "Pending" /\ ~pods[k].term)]]
+
+ApiPod(sn, n)    == {q \in SeqToSet(sn.apods) : q.name = n}
+ApiHasPod(sn, n) == ApiPod(sn, n) # {}
+ApiImm(sn, n)    == \E q \in ApiPod(sn, n) : q.imm        \* a delete removes it at once (finished or never scheduled)
+
+---------------------------------------------------------------------------------------
 (* adoptOrphanRevisions (stateful_set.go).                                             *)
 
 FreshOK(sn) == sn.fresh.exists /\ sn.fresh.sameUid
 FreshGet(sn) == LET c == Call("get", "statefulsets", sn.set.name, "", <<>>) IN
                 IF sn.fresh.exists THEN c ELSE WithResult(c, "NotFound")
 
-AdoptRevisions(sn) ==
+\* returns [calls, err, died, revs] ; base = number of plan calls before this section
+AdoptRevisions(sn, base) ==
   LET set     == sn.set
       orphans == SelectSeq(Listed(sn.revs), LAMBDA x : x.owner = "none")
+      marked  == SelectSeq(orphans, LAMBDA x : x.marker)
       get     == <<FreshGet(sn)>>
-      syncs   == [k \in 1..Len(SelectSeq(orphans, LAMBDA x : x.marker)) |->
-                    Call("update", "controllerrevisions", SelectSeq(orphans, LAMBDA x : x.marker)[k].name, "labels", <<>>)]
+      syncs   == [k \in 1..Len(marked) |-> Call("update", "controllerrevisions", marked[k].name, "labels", <<>>)]
       adopts  == [k \in 1..Len(orphans) |-> Call("patch", "controllerrevisions", orphans[k].name, "adopt", <<>>)]
       names   == {orphans[k].name : k \in 1..Len(orphans)}
       after   == [k \in 1..Len(sn.revs) |->
                     IF sn.revs[k].name \in names
                     THEN [sn.revs[k] EXCEPT !.owner = "self", !.sel = IF sn.revs[k].marker THEN TRUE ELSE @]
                     ELSE sn.revs[k]]
+      g       == Overlay(sn, get, base)
+      full    == Overlay(sn, get \o syncs \o adopts, base)
+      bad     == FirstBad(full)
   IN
-  IF Len(orphans) = 0 \/ set.deleting THEN [calls |-> <<>>, err |-> FALSE, revs |-> sn.revs]
-  ELSE IF ~FreshOK(sn)               THEN [calls |-> get, err |-> TRUE, revs |-> sn.revs]
-  ELSE IF sn.fresh.deleting          THEN [calls |-> get, err |-> FALSE, revs |-> sn.revs]
-  ELSE [calls |-> get \o syncs \o adopts, err |-> FALSE, revs |-> after]
+  IF ListFault(sn, {1, 2}) THEN [calls |-> <<>>, err |-> TRUE, revs |-> sn.revs]
+  ELSE IF Len(orphans) = 0 \/ set.deleting THEN [calls |-> <<>>, err |-> FALSE, revs |-> sn.revs]
+  ELSE IF ~IsOK(g[1])               THEN [calls |-> g, err |-> TRUE, revs |-> sn.revs]
+  ELSE IF ~sn.fresh.sameUid         THEN [calls |-> g, err |-> TRUE, revs |-> sn.revs]
+  ELSE IF sn.fresh.deleting         THEN [calls |-> g, err |-> FALSE, revs |-> sn.revs]
+  ELSE IF bad > 0 THEN [calls |-> SubSeq(full, 1, bad), err |-> TRUE, revs |-> sn.revs]
+  ELSE [calls |-> full, err |-> FALSE, revs |-> after]
 
 ---------------------------------------------------------------------------------------
 (* getPodsForStatefulSet: ClaimPods over every pod of the namespace.  Pods are visited *)
-(* in cache order, which is unspecified; the spec fixes name order and the trace spec  *)
-(* compares this section as a set.                                                     *)
+(* in cache order, which is unspecified; the harness puts this segment in the order    *)
+(* used here (fresh GET, releases by name, adoptions by name).  Every pod is handled   *)
+(* even if an earlier one failed; errors are aggregated.  A patch that answers         *)
+(* NotFound (Invalid for a release) is not an error: the pod is simply not claimed.    *)
 
 Matches(p) == p.match /\ p.member
 
-ClaimPods(sn) ==
+ClaimPods(sn, base) ==
   LET set      == sn.set
       pods     == sn.pods
-      owned    == SelectSeq(pods, LAMBDA p : p.owner = "self" /\ Matches(p))
       toRel    == SelectSeq(pods, LAMBDA p : p.owner = "self" /\ ~Matches(p) /\ ~set.deleting)
       toAdopt  == SelectSeq(pods, LAMBDA p : p.owner = "none" /\ ~set.deleting /\ Matches(p) /\ ~p.term)
-      canAdopt == FreshOK(sn) /\ ~sn.fresh.deleting
-      get      == IF Len(toAdopt) > 0 THEN <<FreshGet(sn)>> ELSE <<>>
-      rel      == [k \in 1..Len(toRel) |-> Call("patch", "pods", toRel[k].name, "release", <<>>)]
-      adopt    == IF canAdopt THEN [k \in 1..Len(toAdopt) |-> Call("patch", "pods", toAdopt[k].name, "adopt", <<>>)]
+      get0     == IF Len(toAdopt) > 0 THEN <<FreshGet(sn)>> ELSE <<>>
+      get      == Overlay(sn, get0, base)
+      canAdopt == Len(toAdopt) > 0 /\ IsOK(get[1]) /\ sn.fresh.sameUid /\ ~sn.fresh.deleting
+      nat(p)   == IF ApiHasPod(sn, p.name) THEN "ok" ELSE "NotFound"
+      rel0     == [k \in 1..Len(toRel) |-> WithResult(Call("patch", "pods", toRel[k].name, "release", <<>>), nat(toRel[k]))]
+      adopt0   == IF canAdopt THEN [k \in 1..Len(toAdopt) |->
+                                      WithResult(Call("patch", "pods", toAdopt[k].name, "adopt", <<>>), nat(toAdopt[k]))]
                   ELSE <<>>
-  IN [calls   |-> get \o rel \o adopt,
-      err     |-> Len(toAdopt) > 0 /\ ~canAdopt,
-      claimed |-> SelectSeq(pods, LAMBDA p : (p.owner = "self" /\ Matches(p))
-                                              \/ (canAdopt /\ p.owner = "none" /\ ~set.deleting /\ Matches(p) /\ ~p.term))]
+      rel      == Overlay(sn, rel0, base + Len(get))
+      adopt    == Overlay(sn, adopt0, base + Len(get) + Len(rel))
+      adopted  == {adopt[k][3] : k \in {j \in 1..Len(adopt) : IsOK(adopt[j])}}
+      hardErr(c) == ~IsOK(c) /\ ~IsNotFound(c) /\ ~(c[4] = "release" /\ c[6] = "Invalid")
+      all      == get \o rel \o adopt
+      died     == {k \in 1..Len(all) : IsDied(all[k])}
+  IN [calls   |-> IF died = {} THEN all ELSE SubSeq(all, 1, MinOf(died)),
+      died    |-> died # {},
+      err     |-> \/ (Len(toAdopt) > 0 /\ ~canAdopt)
+                  \/ \E k \in 1..Len(rel) : hardErr(rel[k])
+                  \/ \E k \in 1..Len(adopt) : hardErr(adopt[k]),
+      claimed |-> SelectSeq(pods, LAMBDA p : (p.owner = "self" /\ Matches(p)) \/ p.name \in adopted)]
 
 ---------------------------------------------------------------------------------------
 (* getStatefulSetRevisions.                                                            *)
@@ -147,22 +201,40 @@ ClaimPods(sn) ==
 NextNum(sorted) == IF Len(sorted) = 0 THEN 1 ELSE sorted[Len(sorted)].num + 1
 NatName(set, c) == set.tmpl \o "." \o ToString(c)        \* the name hashing gives (template, collision count)
 
-\* create loop: the name chosen for collision count c may be taken by any revision of the namespace
-RECURSIVE CreateLoop(_, _, _, _, _)
-CreateLoop(set, allrevs, num, c, acc) ==
-  LET nm    == NatName(set, c)
+\* create loop: the name chosen for collision count c may be taken by any revision of the namespace.
+\* returns [calls, name, coll, err]
+RECURSIVE CreateLoop(_, _, _, _, _, _, _)
+CreateLoop(sn, allrevs, num, c, acc, base, depth) ==
+  LET set   == sn.set
+      nm    == NatName(set, c)
       clash == {x \in SeqToSet(allrevs) : x.name = nm}
-      cr    == Call("create", "controllerrevisions", nm, set.tmpl, <<num>>)
-  IN IF clash = {} THEN [calls |-> Append(acc, cr), name |-> nm, coll |-> c, created |-> TRUE]
-     ELSE LET x == CHOOSE y \in clash : TRUE
-              gt == Call("get", "controllerrevisions", nm, "", <<>>)
-              ae == WithResult(cr, "AlreadyExists") IN
-          IF x.tmpl = set.tmpl THEN [calls |-> acc \o <<ae, gt>>, name |-> nm, coll |-> c, created |-> FALSE]
-          ELSE IF c >= 8 THEN [calls |-> acc \o <<ae, gt>>, name |-> nm, coll |-> c, created |-> FALSE]  \* bound for TLC only
-          ELSE CreateLoop(set, allrevs, num, c + 1, acc \o <<ae, gt>>)
+      cr    == At(sn, base + Len(acc) + 1,
+                  WithResult(Call("create", "controllerrevisions", nm, set.tmpl, <<num>>), IF clash = {} THEN "ok" ELSE "AlreadyExists"))
+      gt    == At(sn, base + Len(acc) + 2,
+                  WithResult(Call("get", "controllerrevisions", nm, "", <<>>), IF clash = {} THEN "NotFound" ELSE "ok"))
+  IN IF IsOK(cr) THEN [calls |-> Append(acc, cr), name |-> nm, coll |-> c, err |-> FALSE]
+     ELSE IF ~IsExists(cr) THEN [calls |-> Append(acc, cr), name |-> nm, coll |-> c, err |-> TRUE]
+     ELSE IF ~IsOK(gt) THEN [calls |-> acc \o <<cr, gt>>, name |-> nm, coll |-> c, err |-> TRUE]
+     ELSE LET x == CHOOSE y \in clash : TRUE IN
+          IF x.tmpl = set.tmpl THEN [calls |-> acc \o <<cr, gt>>, name |-> nm, coll |-> c, err |-> FALSE]
+          ELSE IF depth >= 6 THEN [calls |-> acc \o <<cr, gt>>, name |-> nm, coll |-> c, err |-> TRUE]  \* bound for TLC only
+          ELSE CreateLoop(sn, allrevs, num, c + 1, acc \o <<cr, gt>>, base, depth + 1)
 
-Revisions(set, allrevs) ==
-  LET sorted == SortedRevs(allrevs)
+\* updateControllerRevision: RetryOnConflict (4 steps); after every failed update the object is re-read
+RECURSIVE Renumber(_, _, _, _, _, _)
+Renumber(sn, name, num, acc, base, step) ==
+  LET up == At(sn, base + Len(acc) + 1, Call("update", "controllerrevisions", name, "renumber", <<num>>))
+      gt == At(sn, base + Len(acc) + 2, Call("get", "controllerrevisions", name, "", <<>>)) IN
+  IF IsOK(up) THEN [calls |-> Append(acc, up), err |-> FALSE]
+  ELSE IF IsDied(up) THEN [calls |-> Append(acc, up), err |-> TRUE]
+  ELSE IF IsDied(gt) THEN [calls |-> acc \o <<up, gt>>, err |-> TRUE]
+  \* a conflict is retried whether or not the re-read worked (a failed re-read puts the old number back into the clone)
+  ELSE IF IsConflict(up) /\ step < 4 THEN Renumber(sn, name, num, acc \o <<up, gt>>, base, step + 1)
+  ELSE [calls |-> acc \o <<up, gt>>, err |-> TRUE]
+
+Revisions(sn, allrevs, base) ==
+  LET set    == sn.set
+      sorted == SortedRevs(allrevs)
       n      == Len(sorted)
       next   == NextNum(sorted)
       equal  == SelectSeq(sorted, LAMBDA x : x.tmpl = set.tmpl)
@@ -171,17 +243,18 @@ Revisions(set, allrevs) ==
   IN
   IF Len(equal) > 0 /\ sorted[n].tmpl = set.tmpl THEN
        [calls |-> <<>>, upd |-> sorted[n].name, cur |-> IF cur0 = "" THEN sorted[n].name ELSE cur0,
-        coll |-> set.status.collisions, sorted |-> sorted]
+        coll |-> set.status.collisions, sorted |-> sorted, err |-> FALSE]
   ELSE IF Len(equal) > 0 THEN
-       LET e == equal[Len(equal)] IN
-       [calls |-> <<Call("update", "controllerrevisions", e.name, "renumber", <<next>>)>>,
-        upd |-> e.name, cur |-> IF cur0 = "" THEN e.name ELSE cur0, coll |-> set.status.collisions, sorted |-> sorted]
-  ELSE LET cl == CreateLoop(set, allrevs, next, set.status.collisions, <<>>) IN
+       LET e == equal[Len(equal)] rn == Renumber(sn, e.name, next, <<>>, base, 1) IN
+       [calls |-> rn.calls, upd |-> e.name, cur |-> IF cur0 = "" THEN e.name ELSE cur0, coll |-> set.status.collisions,
+        sorted |-> sorted, err |-> rn.err]
+  ELSE LET cl == CreateLoop(sn, allrevs, next, set.status.collisions, <<>>, base, 0) IN
        [calls |-> cl.calls, upd |-> cl.name, cur |-> IF cur0 = "" THEN cl.name ELSE cur0,
-        coll |-> cl.coll, sorted |-> sorted]
+        coll |-> cl.coll, sorted |-> sorted, err |-> cl.err]
 
 ---------------------------------------------------------------------------------------
-(* updateStatefulSet.                                                                  *)
+(* updateStatefulSet.  The loops below compute the calls of the failure-free path with *)
+(* their natural results; UpdateSet then cuts the list at the first call that fails.   *)
 
 Mono(set) == set.policy # "Parallel"
 
@@ -193,16 +266,23 @@ CreateRev(set, cur, upd, i) ==
 
 UpdateMin(set) == IF set.ruBlock /\ set.partPresent /\ set.part > 0 THEN set.part ELSE 0
 
-\* createPersistentVolumeClaims: one create per claim template missing from the claim cache
+\* createPersistentVolumeClaims: one create per claim template missing from the claim CACHE
 ClaimCalls(sn, i) ==
   LET missing == SelectSeq(sn.set.claims, LAMBDA c : ClaimName(sn.set, c, i) \notin sn.pvcs) IN
-  [k \in 1..Len(missing) |-> CallS("create", "persistentvolumeclaims", ClaimName(sn.set, missing[k], i), "", <<>>, <<"claim-ok">>)]
+  [k \in 1..Len(missing) |->
+     WithResult(CallS("create", "persistentvolumeclaims", ClaimName(sn.set, missing[k], i), "", <<>>, <<"claim-ok">>),
+                IF ClaimName(sn.set, missing[k], i) \in sn.apvcs THEN "AlreadyExists" ELSE "ok")]
 
-Squatted(sn, n) == \E q \in SeqToSet(sn.pods) : q.name = n      \* only asked for names the set does not hold itself
-CreatePodCalls(sn, p, squat) ==
-  LET c == CallS("create", "pods", p.name, p.rev, <<p.ord, 1>>, <<"tmpl-ok">>) IN
-  ClaimCalls(sn, p.ord) \o <<IF squat THEN WithResult(c, "AlreadyExists") ELSE c>>
-UpdatePodCalls(sn, p) == (IF p.storOK THEN <<>> ELSE ClaimCalls(sn, p.ord)) \o <<Call("update", "pods", p.name, "", <<>>)>>
+\* afterDelete: the same reconcile deleted the (finished) pod of that name just before
+CreatePodCalls(sn, p, afterDelete) ==
+  LET c == CallS("create", "pods", p.name, p.rev, <<p.ord, 1>>, <<"tmpl-ok">>)
+      exists == IF afterDelete THEN ApiHasPod(sn, p.name) /\ ~ApiImm(sn, p.name) ELSE ApiHasPod(sn, p.name) IN
+  ClaimCalls(sn, p.ord) \o <<IF exists THEN WithResult(c, "AlreadyExists") ELSE c>>
+UpdatePodCalls(sn, p) ==
+  (IF p.storOK THEN <<>> ELSE ClaimCalls(sn, p.ord)) \o
+  <<WithResult(Call("update", "pods", p.name, "", <<>>), IF ApiHasPod(sn, p.name) THEN "ok" ELSE "NotFound")>>
+DeletePodCall(sn, p, why) ==
+  WithResult(Call("delete", "pods", p.name, why, <<>>), IF ApiHasPod(sn, p.name) \/ p.new THEN "ok" ELSE "NotFound")
 
 \* census over the claimed pods
 Census(claimed, cur, upd) ==
@@ -216,7 +296,9 @@ PodAt(claimed, i) == LET S == {p \in SeqToSet(claimed) : p.ord = i} IN
                      IF S = {} THEN [new |-> TRUE, absent |-> TRUE] ELSE CHOOSE p \in S : TRUE
 Present(claimed, i) == \E p \in SeqToSet(claimed) : p.ord = i
 
-\* acc: [calls, st (counters), stop, reps (function ordinal -> pod as the loop leaves it)]
+\* acc: [calls, st (status counters), stop, reps (the replicas slice as the loop leaves it)]
+Push(acc, cs, st) == [acc EXCEPT !.calls = @ \o cs, !.st = st]
+
 RECURSIVE ReplicaLoop(_, _, _, _, _, _, _)
 ReplicaLoop(sn, claimed, cur, upd, i, bound, acc) ==
   IF i >= bound THEN acc
@@ -226,28 +308,23 @@ ReplicaLoop(sn, claimed, cur, upd, i, bound, acc) ==
         mono == Mono(set)
         p0   == acc.reps[i]
         dead == Dead(p0)
-        a1   == IF dead THEN
-                   [acc EXCEPT !.calls = Append(@, Call("delete", "pods", p0.name, "failed", <<>>)),
-                               !.st = [@ EXCEPT !.replicas = @ - 1,
-                                                !.current  = IF ~p0.term /\ p0.rev = cur THEN @ - 1 ELSE @,
-                                                !.updated  = IF ~p0.term /\ p0.rev = upd THEN @ - 1 ELSE @]]
-                ELSE acc
+        st1  == [acc.st EXCEPT !.replicas = @ - 1,
+                               !.current  = IF ~p0.term /\ p0.rev = cur THEN @ - 1 ELSE @,
+                               !.updated  = IF ~p0.term /\ p0.rev = upd THEN @ - 1 ELSE @]
+        a1   == IF dead THEN Push(acc, <<DeletePodCall(sn, p0, "failed")>>, st1) ELSE acc
         p    == IF dead THEN NewPod(set, i, CreateRev(set, cur, upd, i)) ELSE p0
         a2   == [a1 EXCEPT !.reps = (i :> p) @@ @]
     IN
-    IF IsNew(p) /\ ~dead /\ Squatted(sn, p.name) THEN
-        \* the name is taken by a pod the set does not own: the create fails and the reconcile returns the error
-        [a2 EXCEPT !.calls = @ \o CreatePodCalls(sn, p, TRUE), !.stop = TRUE, !.fail = TRUE]
-    ELSE IF IsNew(p) THEN
-        LET a3 == [a2 EXCEPT !.calls = @ \o CreatePodCalls(sn, p, FALSE),
-                             !.st = [@ EXCEPT !.replicas = @ + 1,
-                                              !.current  = IF p.rev = cur THEN @ + 1 ELSE @,
-                                              !.updated  = IF p.rev = upd THEN @ + 1 ELSE @]] IN
+    IF IsNew(p) THEN
+        LET st3 == [a2.st EXCEPT !.replicas = @ + 1,
+                                 !.current  = IF p.rev = cur THEN @ + 1 ELSE @,
+                                 !.updated  = IF p.rev = upd THEN @ + 1 ELSE @]
+            a3  == Push(a2, CreatePodCalls(sn, p, dead), st3) IN
         IF mono THEN [a3 EXCEPT !.stop = TRUE] ELSE ReplicaLoop(sn, claimed, cur, upd, i + 1, bound, a3)
     ELSE IF Terminating(p) /\ mono THEN [a2 EXCEPT !.stop = TRUE]
     ELSE IF ~RunningReady(p) /\ mono THEN [a2 EXCEPT !.stop = TRUE]
     ELSE IF p.identOK /\ p.storOK THEN ReplicaLoop(sn, claimed, cur, upd, i + 1, bound, a2)
-    ELSE ReplicaLoop(sn, claimed, cur, upd, i + 1, bound, [a2 EXCEPT !.calls = @ \o UpdatePodCalls(sn, p)])
+    ELSE ReplicaLoop(sn, claimed, cur, upd, i + 1, bound, Push(a2, UpdatePodCalls(sn, p), a2.st))
 
 CondemnedSet(sn, claimed) ==
   LET set == sn.set ls == LoopSlots(set.replicas, set.slots, {}) IN
@@ -265,9 +342,9 @@ CondemnedLoop(sn, todo, fu, cur, upd, acc) ==
            mono == Mono(sn.set) IN
        IF t.term THEN (IF mono THEN [acc EXCEPT !.stop = TRUE] ELSE CondemnedLoop(sn, todo \ {t}, fu, cur, upd, acc))
        ELSE IF ~RunningReady(t) /\ mono /\ t.ord # fu THEN [acc EXCEPT !.stop = TRUE]
-       ELSE LET a2 == [acc EXCEPT !.calls = Append(@, Call("delete", "pods", t.name, "scale", <<>>)),
-                                  !.st = [@ EXCEPT !.current = IF t.rev = cur THEN @ - 1 ELSE @,
-                                                   !.updated = IF t.rev = upd THEN @ - 1 ELSE @]] IN
+       ELSE LET st2 == [acc.st EXCEPT !.current = IF t.rev = cur THEN @ - 1 ELSE @,
+                                      !.updated = IF t.rev = upd THEN @ - 1 ELSE @]
+                a2  == Push(acc, <<DeletePodCall(sn, t, "scale")>>, st2) IN
             IF mono THEN [a2 EXCEPT !.stop = TRUE] ELSE CondemnedLoop(sn, todo \ {t}, fu, cur, upd, a2)
 
 RECURSIVE UpdateLoop(_, _, _, _, _)
@@ -276,8 +353,7 @@ UpdateLoop(sn, cur, upd, t, acc) ==
   ELSE IF t \notin DOMAIN acc.reps THEN UpdateLoop(sn, cur, upd, t - 1, acc)
   ELSE LET p == acc.reps[t] IN
        IF p.rev # upd /\ ~Terminating(p) THEN
-            [acc EXCEPT !.calls = Append(@, Call("delete", "pods", p.name, "update", <<>>)),
-                        !.st = [@ EXCEPT !.current = IF p.rev = cur THEN @ - 1 ELSE @]]
+            Push(acc, <<DeletePodCall(sn, p, "update")>>, [acc.st EXCEPT !.current = IF p.rev = cur THEN @ - 1 ELSE @])
        ELSE IF ~Healthy(p) THEN acc
        ELSE UpdateLoop(sn, cur, upd, t - 1, acc)
 
@@ -298,6 +374,17 @@ StatusCall(set, fs) ==
   CallS("update", "statefulsets/status", set.name, "",
         <<fs.obsGen, fs.replicas, fs.ready, fs.current, fs.updated, fs.collisions>>, <<fs.curRev, fs.updRev>>)
 
+\* UpdateStatus carries the cached object's resourceVersion and UID.  If the stored object is gone the write
+\* fails NotFound; if it moved on (or was re-created) it fails Conflict.  RetryOnConflict (5 steps) re-reads the
+\* CACHE, so with a stale cache every attempt conflicts; an injected conflict with a fresh cache is retried once.
+RECURSIVE StatusAttempts(_, _, _, _, _)
+StatusAttempts(sn, sc, base, j, acc) ==
+  LET nat == IF ~sn.fresh.exists THEN "NotFound" ELSE IF ~sn.fresh.sameUid \/ ~sn.fresh.rvSame THEN "Conflict" ELSE "ok"
+      c   == At(sn, base + j, WithResult(sc, nat)) IN
+  IF IsOK(c) THEN [calls |-> Append(acc, c), err |-> FALSE]
+  ELSE IF IsConflict(c) /\ j < 5 THEN StatusAttempts(sn, sc, base, j + 1, Append(acc, c))
+  ELSE [calls |-> Append(acc, c), err |-> TRUE]
+
 \* truncateHistory
 Truncate(set, claimed, sorted, cur, upd) ==
   LET live == {cur, upd} \cup {p.rev : p \in SeqToSet(claimed)}
@@ -305,15 +392,36 @@ Truncate(set, claimed, sorted, cur, upd) ==
       n    == Len(hist) - set.histLimit
   IN IF n <= 0 THEN <<>> ELSE [k \in 1..n |-> Call("delete", "controllerrevisions", hist[k].name, "", <<>>)]
 
-UpdateSet(sn, claimed, revs) ==
+\* Execute the pod section call by call (positions base+1, base+2, ...).  It stops at the first call that fails, except:
+\*  - a failing claim create still lets the sibling claims of that pod go out (errors are aggregated), then it stops;
+\*  - an identity/storage update answering Conflict is retried (RetryOnConflict, 4 steps, re-reading the cache).
+IsPVC(c) == c[2] = "persistentvolumeclaims"
+RECURSIVE RunPods(_, _, _, _, _, _)
+RunPods(sn, todo, base, done, claimFailed, tries) ==
+  IF todo = <<>> THEN [calls |-> done, bad |-> claimFailed]
+  ELSE LET c == At(sn, base + 1, Head(todo)) IN
+       IF claimFailed /\ ~IsPVC(c) THEN [calls |-> done, bad |-> TRUE]
+       ELSE IF IsDied(c) THEN [calls |-> Append(done, c), bad |-> TRUE]
+       ELSE IF IsOK(c) THEN RunPods(sn, Tail(todo), base + 1, Append(done, c), claimFailed, 1)
+       ELSE IF IsPVC(c) THEN RunPods(sn, Tail(todo), base + 1, Append(done, c), TRUE, 1)
+       ELSE IF c[1] = "update" /\ c[2] = "pods" /\ IsConflict(c) /\ tries < 4 THEN
+            \* the retry runs the whole closure again: claims this attempt created are still missing from the claim
+            \* cache, are created again, answer AlreadyExists, and that fails the update for good
+            LET n  == Len(done)
+                st == {j \in 1..n : \A k \in j..n : IsPVC(done[k])}
+                again == IF st = {} THEN <<>> ELSE [k \in 1..(n - MinOf(st) + 1) |-> WithResult(done[MinOf(st) + k - 1], "AlreadyExists")]
+            IN RunPods(sn, again \o todo, base + 1, Append(done, c), FALSE, tries + 1)
+       ELSE [calls |-> Append(done, c), bad |-> TRUE]
+
+UpdateSet(sn, claimed, revs, base) ==
   LET set   == sn.set
-      rv    == Revisions(set, revs)
+      rv    == Revisions(sn, revs, base)
       cur   == rv.cur
       upd   == rv.upd
       ls    == LoopSlots(set.replicas, set.slots, {})
       bound == ls[1]
       dset  == (0 .. (bound - 1)) \ ls[2]
-      a0    == [calls |-> <<>>, st |-> Census(claimed, cur, upd), stop |-> FALSE, fail |-> FALSE,
+      a0    == [calls |-> <<>>, st |-> Census(claimed, cur, upd), stop |-> FALSE,
                 reps |-> [i \in {} |-> 0]]
       \* the replicas slice holds a pod (existing or to be created) for every desired ordinal
       reps0 == [i \in dset |-> IF Present(claimed, i) THEN PodAt(claimed, i)
@@ -323,30 +431,36 @@ UpdateSet(sn, claimed, revs) ==
       a2    == IF a1.stop THEN a1
                ELSE CondemnedLoop(sn, CondemnedSet(sn, claimed), FirstUnhealthy(sn, claimed, reps0), cur, upd, a1)
       a3    == IF a2.stop \/ set.strat = "OnDelete" THEN a2 ELSE UpdateLoop(sn, cur, upd, bound - 1, a2)
+      b1    == base + Len(rv.calls)
+      rp    == RunPods(sn, a3.calls, b1, <<>>, FALSE, 1)
+      pcs   == rp.calls
       fs    == FinalStatus(set, a3.st, cur, upd, rv.coll)
-      \* UpdateStatus carries the cached object's resourceVersion and UID: if the stored object is gone the write
-      \* fails NotFound; if it moved on (or was re-created) it fails Conflict and RetryOnConflict (5 steps) re-reads
-      \* the same stale cache, so all 5 attempts fail and the reconcile returns the error.
-      sc    == StatusCall(set, fs)
-      stc   == IF ~Inconsistent(set, fs) THEN <<>>
-               ELSE IF ~sn.fresh.exists THEN <<WithResult(sc, "NotFound")>>
-               ELSE IF ~sn.fresh.sameUid \/ ~sn.fresh.rvSame THEN [k \in 1..5 |-> WithResult(sc, "Conflict")]
-               ELSE <<sc>>
-      stOK  == stc = <<>> \/ stc = <<sc>>
-      tr    == IF stOK THEN Truncate(set, claimed, rv.sorted, cur, upd) ELSE <<>>
-  IN IF a3.fail THEN [calls |-> rv.calls \o a3.calls, res |-> "err"]
-     ELSE [calls |-> rv.calls \o a3.calls \o stc \o tr, res |-> IF stOK THEN "ok" ELSE "err"]
+      b2    == b1 + Len(pcs)
+      sa    == IF Inconsistent(set, fs) THEN StatusAttempts(sn, StatusCall(set, fs), b2, 1, <<>>) ELSE [calls |-> <<>>, err |-> FALSE]
+      b3    == b2 + Len(sa.calls)
+      tr0   == Overlay(sn, Truncate(set, claimed, rv.sorted, cur, upd), b3)
+      tbad  == FirstBad(tr0)
+      died(cs) == \E k \in 1..Len(cs) : IsDied(cs[k])
+  IN IF ListFault(sn, {3, 4}) THEN [calls |-> <<>>, res |-> IF ListDied(sn, {3, 4}) THEN "died" ELSE "err"]
+     ELSE IF rv.err THEN [calls |-> rv.calls, res |-> IF died(rv.calls) THEN "died" ELSE "err"]
+     ELSE IF rp.bad THEN [calls |-> rv.calls \o pcs, res |-> IF died(pcs) THEN "died" ELSE "err"]
+     ELSE IF sa.err THEN [calls |-> rv.calls \o pcs \o sa.calls, res |-> IF died(sa.calls) THEN "died" ELSE "err"]
+     ELSE IF tbad > 0 THEN [calls |-> rv.calls \o pcs \o sa.calls \o SubSeq(tr0, 1, tbad),
+                            res |-> IF died(SubSeq(tr0, 1, tbad)) THEN "died" ELSE "err"]
+     ELSE [calls |-> rv.calls \o pcs \o sa.calls \o tr0, res |-> "ok"]
 
 ---------------------------------------------------------------------------------------
 (* sync                                                                                *)
 
 Sync(sn) ==
   IF ~sn.set.cached \/ sn.set.paused \/ ~sn.set.selectorOK THEN [calls |-> <<>>, res |-> "ok"]
-  ELSE LET ar == AdoptRevisions(sn) IN
-       IF ar.err THEN [calls |-> ar.calls, res |-> "err"]
-       ELSE LET cp == ClaimPods(sn) IN
-            IF cp.err THEN [calls |-> ar.calls \o cp.calls, res |-> "err"]
-            ELSE LET us == UpdateSet(sn, cp.claimed, ar.revs) IN
+  ELSE LET ar == AdoptRevisions(sn, 0)
+           arDied == \E k \in 1..Len(ar.calls) : IsDied(ar.calls[k]) IN
+       IF ar.err THEN [calls |-> ar.calls, res |-> IF arDied \/ ListDied(sn, {1, 2}) THEN "died" ELSE "err"]
+       ELSE LET cp == ClaimPods(sn, Len(ar.calls)) IN
+            IF cp.died THEN [calls |-> ar.calls \o cp.calls, res |-> "died"]
+            ELSE IF cp.err THEN [calls |-> ar.calls \o cp.calls, res |-> "err"]
+            ELSE LET us == UpdateSet(sn, cp.claimed, ar.revs, Len(ar.calls) + Len(cp.calls)) IN
                  [calls |-> ar.calls \o cp.calls \o us.calls, res |-> us.res]
 
 Plan(sn) == Sync(sn).calls
